@@ -2328,7 +2328,7 @@ pub fn monitor() -> super::Monitor {
             "datagrams with a hop-by-hop header are demanded only in the encoding smoltcp itself uses (LOWPAN_NHC, padding kept); for the in-line and pad-elided RFC encodings only 'nothing or exact' is checked; raw sockets do not see datagrams with extension headers",
             "TCP: segments cannot be constructed from send parameters; judged are checksum/addresses/ports (hop limit for segments the socket dispatches itself), equality of every datagram a raw socket on the receiver sees with one decoded independently from the link, the byte streams, and the SYN against a Medium::Ip twin with the same seed",
         ],
-        floors: &[
+        floors: Box::leak(vec![
             ("emit_cases", 5_000),
             ("emit_datagrams_compared", 5_000),
             ("emit_fragmented", 2_000),
@@ -2352,7 +2352,7 @@ pub fn monitor() -> super::Monitor {
             ("b2b_all_datagrams_on_link", 500),
             ("frames_judged", 100_000),
             ("distinct", 300),
-        ],
+        ].into_boxed_slice()),
         parts: vec![
             super::Part { name: "emit", cases: |c| c.n(40_000, 400_000), f: emit_case },
             super::Part { name: "tcp", cases: |c| c.n(5_000, 50_000), f: tcp_case },
